@@ -69,6 +69,8 @@ func runC14(c *Ctx) {
 	for _, cfg := range c.Configs() {
 		if pc := c.Prog(cfg); pc != nil {
 			ruleBufGrowByAppend(c, pc, "C14.grow")
+			c.R.Rule("C14.append", "E4 (see C01.append) in every configuration: an encoder touches the buffer only at positions at or after its length at entry, so what was staged before it (packet code, block header, earlier columns) survives")
+			c.R.Floor("C14.append", pc.Cfg.Name, runBufDisc(c, pc, "C14.append"), 90)
 			ruleEveryElement(c, pc, "C14.every")
 		}
 	}
